@@ -30,7 +30,9 @@ Inductive c12case :=
    connection 1 (ip2) arrives (recycled: it was given the same wrapper object), the goroutine of connection 0 finishes and closes
    its connection object.  victim_closed: the net.Conn of connection 1 was closed at that moment although connection 1 was being
    served and nobody closed it; perip_after: the per-IP map right after. *)
-| CStale (recycled victim_closed : bool) (ip1 ip2 : N) (perip_after : list (N * Z)).
+| CStale (recycled victim_closed : bool) (ip1 ip2 : N) (perip_after : list (N * Z))
+(* the harness could not get two agreeing readings of the observables although every goroutine was at rest: not judged *)
+| CUnstable.
 
 Fixpoint alookup (l : list (N * Z)) (ip : N) : option Z :=
   match l with
@@ -83,6 +85,7 @@ Definition corr_ok (c : c12case) : bool :=
       | Some s => Bool.eqb (closes_own s) (negb victim) && optz_eqb (pm s ip1) (alookup after ip1) && optz_eqb (pm s ip2) (alookup after ip2)
       | None => false
       end
+  | CUnstable => true
   end.
 
 (* ---- the property, judged on what the implementation did ---------------------------------------- *)
@@ -112,4 +115,5 @@ Definition prop_ok (c : c12case) : bool :=
       forallb conn_prop conns && (if documented then peak <=? effConc cf else true)
       && live_prop cf peaklive && zero_obs final
   | CStale _ victim _ _ _ => negb victim     (* a Close made for connection 0 must not close connection 1 *)
+  | CUnstable => true
   end.
